@@ -168,3 +168,16 @@ func init() {
 		note: "partial: the merge machinery is proved field by field for the actual fields of config.Config: mergeConfigs (reflection resolved statically; pointer parameters: most specific level wins, otherwise a fresh copy; slices and typed maps inherited when unset; map[string]any merged key by key), mergeStringMaps (recursive, with loop invariants over a ghost visited set), and the three Initialize functions (which level is merged into which: call-site obligations; every level reached: loop invariants). Load order of defaults/env/file/flags and the read sites in Run are not covered here.",
 	})
 }
+
+func init() {
+	register(&propInfo{
+		id:       "C19",
+		patterns: []string{"./internal/cmd"},
+		trusted: []string{
+			"yaml.v3 decoding of the v2 file and encoding of the v3 file (round-trip, strict-loader acceptance) are outside the check",
+			"package reflect on static descriptors (checkDeprecatedTemplateVariables walks V2Config's actual fields)",
+			"pathlib.OpenFile with the given flags behaves as POSIX open(2)",
+		},
+		note: "partial: migrateConfig is proved for every combination of set/unset v2 keys (one VC, symbolic): each v2 setting with a v3 counterpart lands with the same value under its v3 name or template-data key, the template-data map gains no other key, every other v3 parameter is untouched, the v2 struct is not modified, and no nil pointer is dereferenced; checkDeprecatedTemplateVariables (reflection resolved statically) and tableWriter.Append only touch the deprecation table; run's call sites: input opened read-only, output opened once on the requested path, each level migrated from the same-named v2 level. YAML codec behaviour is assumed.",
+	})
+}
